@@ -134,6 +134,55 @@ CLAIMS = {
         note=ASSUME + "Audited, not proven: non-local discharging arguments. Panics inside dependencies assumed away. Known "
              "findings: overflow expects near the word size, panic on non-size regex errors, unbounded recursion depth.",
         ref="4 C05"),
+    "C02": dict(
+        technique="static analysis: THIR case-table evaluation of the glob walker's closure (decision procedure per entry) and of WalkProgram::compile",
+        text="NARROW: the exactness law over trees x bases x globs is not decided. Decided per entry, on every cell of depth "
+             "0..3 x programs 0..3 x own-component match x complete match: a tree is discarded only when the entry's own "
+             "component fails the program of the same index, an entry is yielded only on a match of the complete program on "
+             "the root-relative path (with that match and pivot stored), everything else is node residue; component programs "
+             "cover exactly the maximal boundary-free prefix; same compiler for component and complete programs.",
+        note=ASSUME + "The central behavioural law is NOT decided (rooted globs, `..` prefixes, pivot arithmetic). Assumed: walkdir semantics.",
+        ref="4 C02"),
+    "C03": dict(
+        technique="static analysis: THIR case-table evaluation of the negation's partition, program construction and verdict function + shared feed tables",
+        text="The equivalence with per-entry filtering needs the soundness of `always exhaustive` (C09, not decided). Decided: "
+             "alternatives go to the exhaustive side only when `always`, the two sides reach the program's slots unswapped, "
+             "residue() over 4 variants x match outcomes, candidate = root-relative path, Not::feed applies the verdict once to "
+             "filtrate and residue alike, into_non_trivial / into_alternatives keep every alternative.",
+        note=ASSUME + "Assumed: C09 soundness (known to be violated by `**/{a}`).",
+        ref="4 C03"),
+    "C08": dict(
+        technique="static analysis: THIR evaluation of Tokenized::partition on abstract token lists with concrete byte spans + table of invariant_text_prefix",
+        text="NARROW: the equivalence over all paths, idempotence and rebuild-equivalence are not decided. Decided: the postfix "
+             "is recompiled from the partitioned tree; for every prefix length on scenarios incl. multi-byte and rooted tree "
+             "wildcards, bytes removed from the expression = amount subtracted from every remaining span (each span still "
+             "delimits its token's text), the first remaining token is unrooted, the prefix text is invariant_text_prefix's; "
+             "invariant_text_prefix over all invariance/boundary patterns up to length 3 (4).",
+        note=ASSUME + "The central behavioural law is NOT decided. Known gap not visible here: globs rooted through a repetition keep their root.",
+        ref="4 C08"),
+    "C14": dict(
+        technique="static analysis: THIR evaluation of split_at_depth on abstract paths + sibling agreement of the helpers' arguments",
+        text="NARROW: depth/pivot arithmetic for rooted and dotted bases is not decided. Decided: split_at_depth returns an "
+             "ancestor of the same path and its strip_prefix for every depth (join = path); GlobEntry::root_relative_paths, "
+             "GlobEntry::depth and the walker use the same helper with (path, walkdir depth, stored pivot) and the same sum; "
+             "to_candidate_path = complete matched text.",
+        note=ASSUME + "The central behavioural law is NOT decided. Assumed: std::path semantics, walkdir depth.",
+        ref="4 C14"),
+    "C15": dict(
+        technique="static analysis: THIR evaluation of the behaviour plumbing (effect log of walkdir builder calls) + constructor tables",
+        text="NARROW: the numeric window after translation by the pivot and termination are not decided. Decided: each "
+             "DepthBehavior variant reaches the right walkdir builder method with minimum and maximum unswapped, LinkBehavior "
+             "reaches follow_links, the DepthBehavior constructors on a grid (tri-state), loop errors become LinkCycle.",
+        note=ASSUME + "The central behavioural law is NOT decided (saturating subtraction of the pivot: `a/b/**` with max 1).",
+        ref="4 C15"),
+    "C17": dict(
+        technique="static analysis: THIR evaluation of the rule functions on failing abstract trees (provenance of spans) + tables for union and LocatedError::span",
+        text="Decides where spans come from: every span in a RuleError produced by the four rules is a token annotation or a "
+             "union of annotations of the same expression; union = (min start, max end - min start); every LocatedError::span "
+             "ends on a character boundary of the text at its location (empty, ASCII, multi-byte); partition shifts spans and "
+             "expression by the same offset (C08.bytes); capture spans are token annotations (C04.captures).",
+        note=ASSUME + "Assumed: pori offsets are on character boundaries. Not decided: spans inside nom's error stack beyond the entry point.",
+        ref="4 C17"),
 }
 
 NA_DEFAULT = "check not built yet (work in progress; see DESIGN.md section 4 for the planned rules)"
